@@ -1,6 +1,7 @@
 (* C18  Each interface is its own link; nothing leaks or outlives its removal.
    Only statements here; every proof is `exact <lemma>` (Proofs/IntfProofs.v, IntfCacheProofs.v,
-   IntfDaemonProofs.v, ResponderProofs.v, C18Witness.v).
+   IntfDaemonProofs.v, IntfHistoryProofs.v, IntfRemovalProofs.v, IntfCheckerProofs.v, ResponderProofs.v,
+   C18Witness.v).
 
    Models: Model/Intf.v (IfKind::matches, resolve_addr_to_index, selected_intfs,
    valid_ip_on_intf, get_addrs_on_my_intf_v4/v6), Model/IntfCache.v (remove_records_on_intf,
@@ -9,7 +10,7 @@
    Model/C18Spec.v (chk_C18, the checker run on every trace). *)
 From Coq Require Import List NArith Bool.
 From Mdns Require Import Res Bytes Rec Intf IntfCache Responder ResponderSpec IntfDaemon C18Spec
-     IntfProofs IntfCacheProofs IntfDaemonProofs ResponderProofs IntfHistoryProofs IntfRemovalProofs
+     IntfProofs IntfCacheProofs IntfDaemonProofs ResponderProofs IntfHistoryProofs IntfRemovalProofs IntfCheckerProofs
      ResponderWitness C18Witness.
 Import ListNotations.
 Open Scope N_scope.
@@ -200,7 +201,8 @@ Proof. exact insert_keeps_first_attribution. Qed.
    address a of it with the family of the packet such that: if the OS table `os` reports
    (intf, a), its last matching selection in `sels` enables it; the packet leaves on `intf`
    (egress_if); every address record of the packet is `ip_octets x` for an address x lying in the
-   subnet of an address the OS has reported for that interface (seen_rec).
+   subnet of an address the OS has reported for that interface (seen_rec); every address of
+   `intf` is one the OS has reported for that interface.
    run_just: in every iteration every packet satisfies pkt_just with the OS table of that
    iteration and one of the selection lists in force during it (before / between / after its
    enable and disable calls). *)
@@ -272,21 +274,43 @@ Example C18_removal_example :
   = [OIpDel (ip4 10 2 0 10); ORemoved (r_name ptr_peer) (r_name srv_peer)].
 Proof. exact removal_example. Qed.
 
-(* (3) C18_checker_accepts_every_run_partial.  The full statement
-         forall t0 os0 steps, uniq_keys os0 -> wf_steps steps ->
-           known_class (initial_state t0 os0) steps = false ->
-           chk_C18 os0 (model_history t0 os0 steps) = true
-       is NOT mechanised.  What is proved instead is C18_every_packet_justified, whose pkt_just is
-       the packet part of chk_C18 (addrs_ok / enabled_ok) stated on the model's side; missing for
-       the checker's verdict itself: (a) the round trip ip_of_octets (ip_octets a) = a, which needs
-       width hypotheses on every address of the history, (b) for IPv4 the identification of the
-       reported interface (owner of the source address in the OS table) with the interface the
-       daemon means, which needs "an IPv4 address is never reported on two interfaces", and (c) the
-       IpAdd / IpDel conditions of chk_C18, its order condition (no IpDel after the IpAdd of the same
-       address within one IP check) and its condition on the addresses of a resolved instance (learned
-       on an interface that is not dropped); for these two the model's behaviour is shown on the examples
-       C18_moved_address_withdrawn_then_added and C18_dropped_interface_addresses_of_both_families_not_reported.  chk_C18 is run on every trace of model and
-       implementation by ./check C18. *)
+(* (3) the executable checker accepts every run of the model.  Hypotheses, all decidable:
+       unique (interface, address) pairs per OS table (uniq_keys / wf_steps); hist_wf = every netmask
+       fits its family (< 2^32 / < 2^128: the subnet test on the 4 / 16 octets of an address record
+       equals the test on the address itself) and no IPv4 address is reported on two interfaces
+       anywhere in the history (the IPv4 socket is told an ADDRESS, so the interface a packet is
+       seen to leave on is the one the daemon means); the history is outside known_class
+       (finding C18-selection-while-absent).  Covers every clause of chk_C18: packets (enabled
+       interface and family, on-link address records), IpAdd / IpDel, the addresses of resolved
+       instances (cache invariant: every cached address record belongs to an interface the daemon
+       holds), the order of IpDel / IpAdd within an IP check, and the last word about an address. *)
+Theorem C18_checker_accepts_every_run : forall t0 os0 steps,
+  uniq_keys os0 -> wf_steps steps -> hist_wf os0 steps = true ->
+  known_class (initial_state t0 os0) steps = false ->
+  chk_C18 os0 (model_history t0 os0 steps) = true.
+Proof. exact checker_accepts_every_run. Qed.
+
+(* non-vacuity: the example histories satisfy hist_wf (the others are in C18_history_hypotheses_example
+   and below), also the witness of the known class, which the checker rejects *)
+Example C18_checker_hypotheses_example :
+  hist_wf os_ok h_ok = true /\ hist_wf os_w1 h_goodbye = true /\ hist_wf os_mv h_moved = true /\
+  hist_wf os_mv h_held = true /\ hist_wf os_x h_xfam = true /\ hist_wf os_w2 h_absent = true.
+Proof. exact witnesses_hist_wf. Qed.
+Example C18_checker_hypotheses_example2 :
+  (uniq_keysb os_mv = true /\ wf_stepsb h_moved = true /\ known_class (initial_state t0 os_mv) h_moved = false) /\
+  (wf_stepsb h_held = true /\ known_class (initial_state t0 os_mv) h_held = false) /\
+  (uniq_keysb os_x = true /\ wf_stepsb h_xfam = true /\ known_class (initial_state t0 os_x) h_xfam = false).
+Proof. exact more_hyps. Qed.
+
+(* the IPv4 hypothesis is needed: the same IPv4 address on eth0 and eth1, eth0 disabled by name, a
+   service announced (on eth1): the packet is seen to leave on interface 2 - the first owner of
+   the address given to IP_MULTICAST_IF - which is disabled, and the checker rejects the model's
+   own trace.  (On a real host the kernel chooses among the interfaces owning the address.) *)
+Example C18_same_ipv4_on_two_interfaces_example :
+  hist_wf os_dup h_dup = false /\ uniq_keysb os_dup = true /\ known_class (initial_state t0 os_dup) h_dup = false /\
+  last_ifs (run (initial_state t0 os_dup) h_dup) = [2] /\
+  chk_C18 os_dup (model_history t0 os_dup h_dup) = false.
+Proof. exact h_dup_facts. Qed.
 
 (* Non-vacuity: the checker accepts the model's trace of the example history, packets are sent and
    IpAdd / IpDel events are reported. *)
@@ -368,3 +392,7 @@ Print Assumptions C18_history_example.
 Print Assumptions C18_moved_address_withdrawn_then_added.
 Print Assumptions C18_dropped_interface_addresses_of_both_families_not_reported.
 Print Assumptions C18_address_held_elsewhere_is_kept.
+Print Assumptions C18_checker_accepts_every_run.
+Print Assumptions C18_checker_hypotheses_example.
+Print Assumptions C18_checker_hypotheses_example2.
+Print Assumptions C18_same_ipv4_on_two_interfaces_example.
